@@ -24,6 +24,10 @@ PROPS = {
         "suites": [("apply", 300, 3000), ("proc", 100, 1000), ("kv", 100, 600)],
         "title": "frontier monotonicity of apply_delta / cluster apply for every grammar-valid delta; fresh versions of local writes; copy invariant inductive",
     },
+    "C06": {
+        "suites": [("kv", 300, 3000), ("proc", 60, 600)],
+        "title": "reads hide exactly plain tombstones; prefix iteration = visible keys with the prefix in key order; delete / delete_after_ttl / set_with_ttl as the model says (and other keys untouched); GC removes exactly entries at least one grace period old and raises the watermark to the highest collected version",
+    },
     "C07": {
         "suites": [("fill", 24, 200), ("delta", 40, 300), ("proc", 60, 600)],
         "title": "stream upper bound sound for every compressor; delta within budget, version-prefix, scheduled members excluded; replies <= 65,507 bytes",
